@@ -85,6 +85,19 @@ func (p c09) Run(c *core.Ctx, idx int) {
 	o.MaxDepth = 2 + r.Intn(2)
 	o.MaxChildren = 4
 	o.Defaults = idx%4 == 0
+	// target: the reference store (2 of 4) or a map-shaped reflection store, the ones with case detection over unambiguous data
+	storeKind := 0
+	if k := (idx / 3) % 4; k >= 2 {
+		storeKind = k - 1
+	}
+	var gm dp.GoMode
+	cmp := dp.CmpOpts{}
+	if storeKind > 0 {
+		gm = dp.GoModes[storeKind-1]
+		o.Types, o.KeyTypes = dp.GoTypes(gm), dp.GoKeyTypes(gm)
+		o.CompoundKeys = false
+		cmp = dp.CmpOpts{IgnoreListOrder: true, EmptyListIsAbsent: true}
+	}
 	s := dp.GenSchema(r, o)
 	hasChoice := false
 	maxNest := 0
@@ -112,7 +125,19 @@ func (p c09) Run(c *core.Ctx, idx int) {
 	do.MaxEntries = 2
 	t := dp.GenTree(r, s, do)
 	model := t.Clone()
-	target := dp.NewStore(s, t)
+	var target c18store
+	storeName := "reference-store"
+	if storeKind == 0 {
+		target = &c18ref{dp.NewStore(s, t)}
+	} else {
+		if why := dp.GoSupports(s, gm); why != "" {
+			c.Count("go_store_schema_outside_domain")
+			return
+		}
+		target = &c18go{dp.NewGoStore(r, s, gm, t)}
+		storeName = gm.String()
+	}
+	c.Count("store_" + storeName)
 	nops := 2 + r.Intn(11)
 	var history []string
 	for op := 0; op < nops; op++ {
@@ -141,7 +166,7 @@ func (p c09) Run(c *core.Ctx, idx int) {
 		c.Eval()
 		sw := switchClass(s, before, model)
 		if sw != "" {
-			c.Shape("nest%d/%s/%s", maxNest, sw, impl)
+			c.Shape("nest%d/%s/%s/%s", maxNest, sw, impl, storeName)
 			c.Count("steps_switching_case")
 		} else {
 			c.Count("steps_same_case")
@@ -150,21 +175,30 @@ func (p c09) Run(c *core.Ctx, idx int) {
 		if c.Guard("UpsertFrom", func() { err = target.Browser().Root().UpsertFrom(srcNode) }) {
 			return
 		}
+		snap, snapErr := target.Snap()
 		wit := func() string {
-			return fmt.Sprintf("history:\n  %s\nschema:\n%starget before the last step:\n%s\ntarget after:\n%s", joinLines(history), s.Yang(), before.Dump(s), target.Root.Dump(s))
+			after := "<unreadable>"
+			if snap != nil {
+				after = snap.Dump(s)
+			}
+			return fmt.Sprintf("store: %s %s\nhistory:\n  %s\nschema:\n%starget before the last step:\n%s\ntarget after:\n%s", storeName, target.Describe(), joinLines(history), s.Yang(), before.Dump(s), after)
 		}
-		nestTag := fmt.Sprintf("nest%d", min(maxNest, 2))
+		nestTag := fmt.Sprintf("nest%d", min(maxNest, 2)) + storeSig(storeName)
+		if snapErr != nil {
+			c.Violate("store-corrupt/"+nestTag, "the Go values no longer denote a tree of the schema: %v\n%s", snapErr, wit())
+			return
+		}
 		if err != nil {
 			c.Violate("upsert-error/"+nestTag+"/"+impl+"/"+errClassText(err), "upsert returned %v\n%s", err, wit())
 			return
 		}
 		var cv []string
-		caseViolations(s, target.Root, "", &cv)
+		caseViolations(s, snap, "", &cv)
 		if len(cv) > 0 {
 			c.Violate("two-cases/"+nestTag+"/"+impl, "%s\n%s", cv[0], wit())
 			return
 		}
-		if d := dp.Diff(s, model, target.Root, dp.CmpOpts{}); d != "" {
+		if d := dp.Diff(s, model, snap, cmp); d != "" {
 			c.Violate("result/"+nestTag+"/"+impl+"/"+diffClass(d), "target differs from the model after a case switch:\n%s\n%s", d, wit())
 			return
 		}
@@ -177,7 +211,7 @@ func (p c09) Run(c *core.Ctx, idx int) {
 			c.Violate("export-error/"+nestTag, "export failed: %v\n%s", err, wit())
 			return
 		}
-		if d := dp.Diff(s, model, capt.Root, dp.CmpOpts{DefaultsMayAppear: true}); d != "" {
+		if d := dp.Diff(s, model, capt.Root, dp.CmpOpts{DefaultsMayAppear: true, IgnoreListOrder: cmp.IgnoreListOrder, EmptyListIsAbsent: cmp.EmptyListIsAbsent}); d != "" {
 			c.Violate("export/"+nestTag+"/"+diffClass(d), "export differs from the store:\n%s\n%s", d, wit())
 			return
 		}
